@@ -804,6 +804,9 @@ def m_uuid(interp, fr, *args, **kw):
             return SOpaque(z3.simplify(u), "uuid")
         if len(segs) == 1 and isinstance(segs[0], Lit):
             return uuid.UUID(bytes=segs[0].b)
+        if len(segs) == 1 and isinstance(segs[0], Enc) and segs[0].codec == ("uuid",):
+            v = resolve_opt(ctx, segs[0].args[0])
+            return uuid.UUID(int=0) if v is None else v
         raise Undecided("UUID(bytes=<composite>)")
     raise Undecided("UUID() form not modelled")
 
